@@ -553,6 +553,11 @@ func (w *world) stepConn(tid int, t *thread, r *Req, o *Obs) error {
 	}
 	switch t.st {
 	case sInit:
+		if w.c.Kind == 2 && w.env[rkey(r.R)] {
+			// the route belongs to a listener outside any group: not a group endpoint
+			t.st = sCRefused
+			return nil
+		}
 		ch := make(chan *heldWorker, 1)
 		gmu.Lock()
 		connWaiter = ch
